@@ -78,7 +78,7 @@ class SRLReader(TypeReaderBase):
         self,
         fp: "Union[PathLike, str, bytes, BinaryIO]",
         *,
-        closefd: bool = True,
+        closefd: "Optional[bool]" = None,
         _load_icon: bool = True,
     ):
 
